@@ -3,6 +3,8 @@
 package conf
 
 import (
+	"path/filepath"
+	"os"
 	"fmt"
 	"math/rand/v2"
 	"regexp"
@@ -215,7 +217,24 @@ func TestVerifC14(t *testing.T) {
 			}
 		}
 	}
-	r.Finish("seeded sets of 1..7 path configurations (static names, '~' regexes with 0..12 groups, all/all_others; at most one alias as Validate enforces) x requested names (valid, invalid, exact keys, keys without '~', near misses); each resolved 8 times on freshly built maps with shuffled insertion. non-trivial = >=2 regex confs match the name, or a static key coexists with a matching regex",
+	// "at most one alias" is what makes resolution deterministic for the catch-all: a configuration with two of
+	// all / all_others / ~^.*$ must not load (through conf.Load, in every order)
+	dir := t.TempDir()
+	for ai, pair := range [][2]string{{"all", "all_others"}, {"all_others", "all"}, {"all", "~^.*$"}, {"~^.*$", "all"}, {"all_others", "~^.*$"}, {"~^.*$", "all_others"}} {
+		cf := filepath.Join(dir, fmt.Sprintf("alias%d.yml", ai))
+		os.WriteFile(cf, []byte(fmt.Sprintf("paths:\n  cam1:\n  %q:\n    maxReaders: 1\n  %q:\n    maxReaders: 2\n", pair[0], pair[1])), 0o644) //nolint:errcheck
+		c, _, err := Load(cf, nil, nil)
+		r.Eval(fmt.Sprintf("alias-pair|%s|%s", pair[0], pair[1]))
+		if err == nil {
+			pc, _, _ := FindPathConf(c.Paths, "whatever")
+			got := "?"
+			if pc != nil {
+				got = pc.Name
+			}
+			r.Violation("two-catch-all-entries-accepted", fmt.Sprintf("a configuration with both %q and %q (two entries that match every name) loads; the name \"whatever\" resolves to %q, the other entry can never apply", pair[0], pair[1], got), nil)
+		}
+	}
+	r.Finish("seeded sets of 1..7 path configurations (static names, '~' regexes with 0..12 groups, all/all_others; at most one alias as Validate enforces) x requested names (valid, invalid, exact keys, keys without '~', near misses); each resolved 8 times on freshly built maps with shuffled insertion; plus the six ordered pairs of catch-all entries (all, all_others, ~^.*$) through conf.Load, which must be rejected. non-trivial = >=2 regex confs match the name, or a static key coexists with a matching regex",
 		"Path objects are shaped as Path.validate shapes them (Name, compiled Regexp); the oracle uses its own byte-loop name validity and its own sort")
 }
 
